@@ -67,8 +67,38 @@ def all_functions(tree):
             yield n
 
 
+MEMO_DECORATORS = {"lru_cache", "cache", "cached_property", "memoize", "memoized", "cached"}
+
+
+def decorator_name(d):
+    if isinstance(d, ast.Call):
+        d = d.func
+    if isinstance(d, ast.Attribute):
+        return d.attr
+    if isinstance(d, ast.Name):
+        return d.id
+    return None
+
+
+def memo_facts(tree, facts):
+    """memoised functions (results kept between calls: state that start_page does not reset), the functions that write the
+    pages table, and which function clears which memo"""
+    import re
+    for fn in all_functions(tree):
+        if any(decorator_name(d) in MEMO_DECORATORS for d in fn.decorator_list):
+            facts["memo"].add(fn.name)
+        for n in ast.walk(fn):
+            if isinstance(n, ast.Constant) and isinstance(n.value, str) and \
+                    re.search(r"\b(INSERT\s+INTO|UPDATE|DELETE\s+FROM)\s+pages\b", n.value, re.I):
+                facts["writers"].add(fn.name)
+            if isinstance(n, ast.Call) and isinstance(n.func, ast.Attribute) and n.func.attr == "cache_clear" \
+                    and isinstance(n.func.value, ast.Attribute):
+                facts["clears"].add(fn.name + ">" + n.func.value.attr)
+
+
 def generate() -> str:
     slots = None
+    facts = {"memo": set(), "writers": set(), "clears": set()}
     start_page = set()
     prologue = set()
     processing = {}
@@ -77,6 +107,7 @@ def generate() -> str:
         if not p.exists():
             continue
         tree = ast.parse(p.read_text())
+        memo_facts(tree, facts)
         for cls in tree.body:
             if isinstance(cls, ast.ClassDef) and cls.name == "Wtp":
                 for st in cls.body:
@@ -121,6 +152,11 @@ def generate() -> str:
            "Definition start_page_resets : list string := %s." % q(start_page & set(slots)),
            "Definition parse_prologue_resets : list string := %s." % q(prologue & set(slots)),
            "Definition written_during_processing : list string := %s." % q(written),
+           "(* functions whose results are kept between calls (lru_cache and the like), the functions that write the pages",
+           "   table, and 'f>m' for every function f that calls m.cache_clear() *)",
+           "Definition memoised_functions : list string := %s." % q(facts["memo"]),
+           "Definition store_writers : list string := %s." % q(facts["writers"]),
+           "Definition cache_clears : list string := %s." % q(facts["clears"]),
            "(* where each field is written:"]
     for f in sorted(written):
         out.append("   %s: %s" % (f, ", ".join(sorted(k for k, v in processing.items() if f in v))))
@@ -132,7 +168,9 @@ def fallback(err):
     return ("(* translator failed: %s *)\nFrom Coq Require Import List String.\nImport ListNotations.\nOpen Scope string_scope.\n"
             "Definition slots : list string := [].\nDefinition start_page_resets : list string := [].\n"
             "Definition parse_prologue_resets : list string := [].\n"
-            "Definition written_during_processing : list string := [\"TRANSLATOR-FAILED\"].\n") % err.replace("*)", "* )")
+            "Definition written_during_processing : list string := [\"TRANSLATOR-FAILED\"].\n"
+            "Definition memoised_functions : list string := [\"TRANSLATOR-FAILED\"].\n"
+            "Definition store_writers : list string := [].\nDefinition cache_clears : list string := [].\n") % err.replace("*)", "* )")
 
 
 if __name__ == "__main__":
